@@ -33,3 +33,5 @@ POTENTIAL_PARENTS_CACHE_SIZE: int = 20
 DEFAULT_COMMAND_TIMEOUT: float = 10
 MIN_TRANSFER_MGMT_INTERVAL: float = 0.05
 MAX_TRANSFER_MGMT_INTERVAL: float = 0.25
+IDLE_TRANSFER_MGMT_INTERVAL: float = 5.0
+"""Interval at which a transfer management cycle runs when nothing requested one"""
